@@ -106,6 +106,94 @@ def session_parameter_cases(chk, sigtable):
     return out
 
 
+def file_method_cases(chk, sigtable):
+    ''' the file-based twins of the transfer methods (send_bundle_file, recv_bundle_pop_file), is_secure and the
+    tcpcl Agent's own methods and signals: same types, same queue semantics. The runs are recorded as plain
+    send/pop events so that they are compared with the model too. '''
+    import os
+    import tempfile
+    import tcpcl_sim as ts
+    rng = chk.rng
+    out, sims = [], []
+    tmpd = tempfile.mkdtemp(prefix='verif_c18_')
+    try:
+        for case in range(6 if chk.tier == 'quick' else 60):
+            sim = ts.Sim(sc.gen_cfg(rng), sc.gen_cfg(rng))
+            for ep in sim.eps():
+                ep.popped = {}
+            sim.establish(rng)
+            if sim.a.closed() or sim.b.closed():
+                continue
+            datas = [bytes(rng.getrandbits(8) for _ in range(rng.choice([0, 1, 17, 300]))) for _ in range(rng.choice([1, 2, 3]))]
+            for i, d in enumerate(datas):
+                path = os.path.join(tmpd, 'tx%d_%d' % (case, i))
+                with open(path, 'wb') as f:
+                    f.write(d)
+                sim.a.call({'e': 'send', 'data': d.hex()}, lambda p=path: sim.a.h.send_bundle_file(p))
+                sim._after(sim.a)
+                ent = sigtable.get('tcpcl.ContactHandler.send_bundle_file')
+                ret = sim.a.obs[-1].get('ret')
+                if sim.a.obs[-1].get('raised') or (ent and (ret is None or not tm.conforms(ret, ent[2]))):
+                    out.append(('C18:return-type-send_bundle_file', 'send_bundle_file returned %r (raised %s), declared "%s"' % (ret, sim.a.obs[-1].get('raised'), ent and ent[2]),
+                                {'len': len(d)}))
+            sim.run_quiescent(rng)
+            sec = sim.a.h.is_secure()
+            if not isinstance(sec, bool):
+                out.append(('C18:return-type-is_secure', 'is_secure returned %r' % (sec,), {}))
+            sim.query(sim.b, 'rxq')
+            listed = (sim.b.obs[-1].get('ret') or {}).get('ss') or []
+            got = []
+            for t in listed:
+                path = os.path.join(tmpd, 'rx%d_%s' % (case, t))
+
+                def pop_file(t=t, path=path):
+                    sim.b.h.recv_bundle_pop_file(str(t), path)
+                    with open(path, 'rb') as f:
+                        return f.read()
+                sim.b.call({'e': 'pop', 'tid': int(t)}, pop_file)
+                r = sim.b.obs[-1].get('ret')
+                got.append(bytes.fromhex(r['b']) if r and 'b' in r else None)
+                if got[-1] is not None:
+                    sim.b.popped[int(t)] = got[-1]
+                # the same id a second time must fail
+                sim.b.call({'e': 'pop', 'tid': int(t)}, pop_file)
+                if sim.b.obs[-1].get('raised') is None:
+                    out.append(('C18:pop-twice', 'recv_bundle_pop_file returned transfer %s a second time' % t, {'tid': t}))
+            if got != datas:
+                out.append(('C18:pop-file-data-differs', 'bundles sent from files %s, popped into files %s' % ([len(d) for d in datas], [None if g is None else len(g) for g in got]),
+                            {'sent': [d.hex() for d in datas]}))
+            chk.case({'file_methods': True, 'lens': [len(d) for d in datas]})
+            chk.count('file-methods')
+            for b in tm.mon_types(sim, sigtable) + tm.mon_c18_queues(sim):
+                out.append((b[0], b[1], sc.sim_replay(sim, {'a': datas, 'b': []}, {'flavour': 'file-methods'})))
+            sims.append((sim, 'file methods %d' % case))
+        sc.compare_with_model(chk, sims)
+        # the agent object: connection_opened / connection_closed ('o'), get_connections ('ao')
+        import tcpcl.agent as tagent
+        from tcpcl_util import FakeSock
+        import tcpcl_util as tu
+        cfg = tu.make_config()
+        ag = tagent.Agent(cfg, bus_kwargs=dict(conn=None, object_path='/verif/c18agent'))
+        hs = [ag._bind_handler(config=cfg, sock=FakeSock('k%d' % i), toaddr=('192.0.2.1', 4556)) for i in range(3)]
+        conns = ts.canon_val(list(ag.get_connections()))
+        ent = sigtable.get('tcpclagent.Agent.get_connections')
+        if ent and not (conns.get('ss') is not None and all(x.startswith('/') for x in conns['ss']) and len(conns['ss']) == 3):
+            out.append(('C18:return-type-get_connections', 'get_connections returned %r, declared "%s"' % (conns, ent[2]), {}))
+        hs[1].close()
+        for (_p, name, sig, args) in ag._verif_signals:
+            cv = [ts.canon_val(a) for a in args]
+            if not (len(cv) == 1 and 's' in cv[0] and cv[0]['s'].startswith('/')):
+                out.append(('C18:signal-type-%s' % name, 'agent signal %s%r does not conform to "%s"' % (name, cv, sig), {}))
+        names = [n for (_p, n, _s, _a) in ag._verif_signals]
+        if names.count('connection_opened') != 3 or names.count('connection_closed') != 1:
+            out.append(('C18:agent-connection-signals', 'three contacts opened and one closed gave signals %s' % names, {}))
+        chk.count('agent-methods')
+    finally:
+        import shutil
+        shutil.rmtree(tmpd, ignore_errors=True)
+    return out
+
+
 def run(chk):
     chk.prove(MODULE)
     rng, tier = chk.rng, chk.tier
@@ -154,6 +242,8 @@ def run(chk):
                 chk.violation(sig, what, {'passive': passive, 'state': st, 'msg': nm, 'x_cfg': adv.x.model_cfg(), 'x_events': adv.x.events})
             advs.append((adv, '%s %s %s' % ('passive' if passive else 'active', st, nm)))
     c17.compare(chk, advs)
+    for (sig, what, rep) in file_method_cases(chk, sigtable):
+        chk.violation(sig, what, rep)
     for (sig, what, rep) in session_parameter_cases(chk, sigtable):
         chk.violation(sig, what, rep)
     for (sig, what, rep) in udpcl_polling_cases(chk, sigtable):
